@@ -669,7 +669,7 @@ fn constructors(run: &Run) {
 
     // ---- arange / linspace ----------------------------------------------------------------
     let starts = [-2.0, -0.5, 0.0, 0.25, 1.0, 10.0];
-    let spans = [0.0, 0.3, 0.5, 0.6, 0.7, 1.0, 2.5, 4.0, 7.3, 10.0, 63.0];
+    let spans = [0.0, 0.3, 0.5, 0.6, 0.7, 1.0, 2.5, 4.0, 7.3, 10.0, 63.0, 3.0000000001, 1.0 + 1e-10, 1e-10, 2.5 + 1e-12, 5.000001, 7.0 + 4e-15, 0.9999999999, 2.0 - 1e-12];
     let steps = [0.25, 1.0 / 3.0, 0.1, 0.2, 1.0, 2.5, 0.7];
     for &st in &starts {
         for &sp in &spans {
